@@ -862,6 +862,29 @@ void gen_c14(Gen &g) {
       prog.push_back(pick_instr(r));
     }
     if (r.chance(1, 12)) prog.insert(prog.begin() + (long)r.below(prog.size() + 1), pick_reject(r));
+    if (!internal && !m.offset_unspec && r.chance(1, 6)) {
+      // a program that ends within the last bytes of the caller buffer: counting must succeed or fail exactly where
+      // plain assembly does (the 20-byte rule is applied before an instruction, never after the last one)
+      long target = m.cap - 20 - m.offset + r.range(-4, 14);
+      long len = 0;
+      prog.clear();
+      for (int guard = 0; guard < 400 && len < target; guard++) {
+        std::string l = pick_instr(r);
+        int ll = line_len(l, m.opts());
+        if (ll <= 0 || len + ll > target + 2) continue;
+        prog.push_back(l);
+        len += ll;
+      }
+      if (prog.empty()) prog.push_back(pick_instr(r));
+    }
+    if (internal && kind >= 4 && r.chance(1, 120)) {
+      // more crossings in one call than 16 bits can count
+      prog.clear();
+      static const char *three[] = {"mov rcx, rdx", "add rcx, rdx", "xor rdx, rdx", "mov r8, r9"};
+      long n3 = r.range(65600, 70000);
+      for (long q = 0; q < n3; q++) prog.push_back(three[q & 3]);
+      p.world.step_budget = 2000000000L;
+    }
     if (kind < 2) {
       Op a = g.mk(OP_ASM, 0);
       a.lines = prog;
@@ -877,6 +900,7 @@ void gen_c14(Gen &g) {
     unsigned cw = (unsigned)r.below(12);
     long c = cw == 0 ? r.range(-3, 1) : cw < 9 ? r.range(2, 48) : cw < 11 ? r.range(49, 4096) : 1000000;
     if (nl > 1000 && r.coin()) c = r.range(5000, 9000);  // a boundary near the capacity of a new library-managed buffer
+    if (prog.size() > 60000) c = r.range(2, 3);
     if (kind < 4) {
       FileSpec f;
       f.path = "/sim/count" + std::to_string(nfiles++) + ".asm";
@@ -1404,6 +1428,10 @@ void gen_c19(Gen &g) {
       // a name as long as a path can be, or longer: nothing there, or not even a valid name
       static const long lens[] = {300, 2000, 4000, 4070, 4095, 4096, 4200, 6000, 9000};
       path = long_path(p.world, lens[r.below(9)], "no_such_file_", false);
+    } else if (w == 0 && r.coin()) {
+      // an existing name with white space behind it is another name (and names no file here)
+      static const char *tails[] = {" ", "\n", "\t", "  ", "\r\n"};
+      path = "/sim/in" + std::to_string(r.below((uint64_t)nfiles)) + ".asm" + tails[r.below(5)];
     } else if (w == 0)
       path = "/sim/missing.asm";
     else if (w == 1)
